@@ -195,6 +195,14 @@ RebuildDemanded(A, E, o) ==
     /\ Demanded(A, E, o)
     /\ Len(DropRemoved(A, o)) = Len(DropRemoved(E, o))          \* different line counts: every line counts as different
     /\ ~SpecPass(A, E, o)
+\* "exclusions were in force" (C15): an exclusion did something - a line was dropped, or a pair of differing lines
+\* was excused by an ignore-substring / ignore-pattern.  Otherwise the files named by the comparison command are
+\* already a pair that differs exactly on the unexcused lines, and no second pair is demanded.
+ExclusionsHadEffect(A, E, o) ==
+    LET A1 == DropRemoved(A, o)
+        E1 == DropRemoved(E, o) IN
+    \/ Len(A1) # Len(A) \/ Len(E1) # Len(E)
+    \/ (Len(A1) = Len(E1) /\ \E i \in 1..Len(A1) : Norm(A1[i], o) # Norm(E1[i], o) /\ Excused(A1[i], E1[i], o))
 RebuildOK(A, E, o) == RebuildDemanded(A, E, o) => DiffPairs(ImplRebuild(A, E, o)) = SpecDiffPairs(A, E, o)
 
 (* binary files: first differing byte offset and lengths *)
